@@ -87,7 +87,8 @@ theorem isPrefixMatch_iff (t : Trie) (k : Bytes) :
           refine ⟨[b], by simp, ?_, ?_⟩
           · simp [search, hch, search_nil, hend]
           · exact List.cons_prefix_cons.mpr ⟨rfl, List.nil_prefix⟩
-        · simp only [hend, if_false]
+        · have hend' : n.isEnd = false := by simpa using hend
+          simp only [hend', Bool.false_eq_true, if_false]
           rw [ih n]
           constructor
           · rintro ⟨p1, h1, h2, h3⟩
